@@ -339,3 +339,10 @@ Definition v2_resets_on_failure (body : list stmt) : bool :=
              | Some _ => false
              end)
           (paths body).
+
+(* a Colang 2 rail of the library shape: whenever the guard `cond` holds (the rail rejects), the
+   flow does not finish normally - every such path ends in `abort` (or in the failure of an
+   awaited flow), for BOTH settings of enable_rails_exceptions *)
+Definition v2_reject_aborts (body : list stmt) (cond : string) : bool :=
+  forallb (fun pl => negb (snd pl) || negb (existsb (is_cond cond true) (fst pl))) (paths body) &&
+  existsb (fun pl => existsb (is_cond cond true) (fst pl)) (paths body).
